@@ -51,7 +51,8 @@ def one(seed):
 def main():
     seeds = sys.argv[1:] or sorted(d for d in os.listdir(os.path.join(ROOT, "seeded")) if os.path.isfile(os.path.join(ROOT, "seeded", d, "patch.diff")))
     reference("HEAD"); reference(BASE)
-    matrix = {}
+    mpath = os.path.join(ROOT, "seeded", "MATRIX.json")
+    matrix = json.load(open(mpath)) if sys.argv[1:] and os.path.exists(mpath) else {}
     with cf.ThreadPoolExecutor(max_workers=12) as ex:
         for seed, rev, got in ex.map(one, seeds):
             if got is None:
